@@ -30,9 +30,12 @@ class Response(object):
         status_line = next(lines, b'')
         tokens = iter(status_line.split(None, 2))
         self.http_ver = next(tokens, b'').decode('ascii', 'replace')
-        try:
-            self.status_code = int(next(tokens, b''))
-        except ValueError:
+        status_code = next(tokens, b'')
+        # A status code is exactly three digits, int() accepts much more
+        # (a sign, underscores, leading zeros)
+        if len(status_code) == 3 and status_code.isdigit():
+            self.status_code = int(status_code)
+        else:
             self.status_code = None
         self.status = next(tokens, b'').decode('ascii', 'replace')
 
